@@ -987,7 +987,7 @@ pub fn run(args: &Args) {
 	self_test().expect("independent Hilbert implementation self test");
 	let mut ctx = c16::new_ctx(args, "c01-scratch");
 	let mut shrunk: BTreeMap<String, u32> = BTreeMap::new();
-	ctx.out.rule = "tile sets (single tile; sparse clusters; dense boxes; zoom gaps; both sides of the 256 grid at zoom 9–12 with x or y in {254,255,256,257,511,512}; duplicate payloads and sizes 999/1000/1001 around the de-duplication threshold; extreme coordinates (zoom 0/1/30/31 corners); payload classes (0, 1, 511-513, 70000 bytes, duplicates); every third set streamed by the source reversed or shuffled; outputs written over pre-existing longer files / non-empty directories; dense boxes of tiny tiles with additively related lengths (1..6, {10,20,30}, arithmetic progressions, Fibonacci-like) streamed row-major, i.e. not in tile-id order; a few hundred tiles; boundary-seeking sets (crate::boundary): PMTiles sets whose gzip-compressed root directory is exactly 16257, 16258, 16384, 16385 bytes long (budget 16384-127; more deltas in the thorough tier), PMTiles sets with exactly 16383 / 16384 entries, MBTiles sets of 2000 / 2001 tiles (insert batch size); 130×130 = 16900 tiles at zoom 8 so that PMTiles needs leaf directories (one PMTiles case in the quick tier, five targets in the thorough tier); a third of the sets with a pyramid widened beyond the tiles) written with every real writer: the first set with ALL 30 (format, compression) pairs per target (incl. the pairs a target cannot express: Err is fine, a silent change is a failure), later sets with rotating pairs (versatiles 3, pmtiles 3, mbtiles 2, tar 2, directory 2 per set). Payloads are opaque bytes. A case is non-trivial when the set has ≥ 2 tiles and the writer succeeded; distinct by request text".into();
+	ctx.out.rule = "tile sets (single tile; sparse clusters; dense boxes; zoom gaps; both sides of the 256 grid at zoom 9–12 with x or y in {254,255,256,257,511,512}; duplicate payloads and sizes 999/1000/1001 around the de-duplication threshold; extreme coordinates (zoom 0/1/30/31 corners); payload classes (0, 1, 511-513, 70000 bytes, duplicates); every third set streamed by the source reversed or shuffled; outputs written over pre-existing longer files / non-empty directories; dense boxes of tiny tiles with additively related lengths (1..6, {10,20,30}, arithmetic progressions, Fibonacci-like) streamed row-major, i.e. not in tile-id order; a few hundred tiles; boundary-seeking sets (crate::boundary): PMTiles sets whose gzip-compressed root directory is exactly 16257, 16258, 16384, 16385 bytes long (budget 16384-127; more deltas in the thorough tier), PMTiles sets with exactly 16383 / 16384 / 16385 entries (thorough: also 16387, 20483, 24581 - counts that are no multiple of the number of leaf directories), MBTiles sets of 2000 / 2001 tiles (insert batch size); 130×130 = 16900 tiles at zoom 8 so that PMTiles needs leaf directories (one PMTiles case in the quick tier, five targets in the thorough tier); a third of the sets with a pyramid widened beyond the tiles) written with every real writer: the first set with ALL 30 (format, compression) pairs per target (incl. the pairs a target cannot express: Err is fine, a silent change is a failure), later sets with rotating pairs (versatiles 3, pmtiles 3, mbtiles 2, tar 2, directory 2 per set). Payloads are opaque bytes. A case is non-trivial when the set has ≥ 2 tiles and the writer succeeded; distinct by request text".into();
 	ctx.out.notes.push("CHECKLIST 1 thresholds: payload 999/1000/1001 (de-dup), 256 grid both sides, PMTiles root 16257/16258/16384/16385 bytes by bisection on the real encoder, 16383/16384 entries, MBTiles batches 2000/2001, zoom 0/30/31; 2 faults: a source that errs is C02/C06's concern, here the writers' refusal of an empty pyramid is modelled (.err)".into());
 	ctx.out.notes.push("CHECKLIST 3 payloads: empty, 1 byte, duplicates within/across blocks, > 64 KiB, additive tiny lengths; 5 pre-existing output (longer file / non-empty directory) for every writer; 6 source stream order reversed / shuffled; 8 extreme coordinates; 9 independent decoder on every written file; 10 real reader vs independent decoder vs Lean reader on the same bytes, Lean writer vs real file".into());
 	ctx.out.notes.push("CHECKLIST 4 option interplay: the writers have no options beyond (format, compression) – all pairs are run; 7 HTTP variants: not applicable".into());
@@ -1087,7 +1087,8 @@ pub fn run(args: &Args) {
 			}
 			Set::exact(t)
 		};
-		let pm: &[usize] = if args.thorough() { &[16383, 16384, 16385] } else { &[16383, 16384] };
+		// counts that are no multiple of the number of leaves (n / 4096): a leaf split that rounds drops or repeats the remainder (seed C01-13)
+		let pm: &[usize] = if args.thorough() { &[16383, 16384, 16385, 16387, 20483, 24581] } else { &[16383, 16384, 16385] };
 		for n in pm {
 			ctx.out.count(&format!("pmtiles_entry_count_{n}"));
 			emit_case(&mut ctx, &mut shrunk, Target::P, Fmt::Webp, Comp::None, &grid(*n, 8, 128), "entry-count");
